@@ -38,7 +38,7 @@ RULE = ('case = 2-3 threads, each a list of 1-3 public operations (BeartypeConf(
         'case run in one forked process; every run uses a class and a package prefix of its own so that it hits the first-time (cache-miss) '
         'paths. evaluations = schedules executed. Oracle: no exception, no deadlock; per-thread results equal those of one of the '
         'sequential orders of the same threads; equal BeartypeConf kwargs / equal hints yield one shared object across threads. '
-        'non-trivial = at least one context switch away from a thread inside beartype code to a thread that is inside beartype code too; '
+        'Hot-reload mode (1 case in 8): one thread calls a wrapper whose forward reference is already resolved (or another operation without identity result) while the other re-decorates a class of an already decorated module and name (beartype clears its caches); every yield point of the first thread is a preemption point. non-trivial = at least one context switch away from a thread inside beartype code to a thread that is inside beartype code too; '
         'distinct by canonical JSON')
 ASSUMPTIONS = [
     'context switches happen at line boundaries of Python code inside beartype (opcode-level tracing makes CPython 3.12.1 itself crash and is disabled); races that '
